@@ -105,12 +105,37 @@ fn ex_eq_int(l: &str) -> Option<Span> {
     None
 }
 
+/// `^k(?P<value>[a-z]*)` — lowercase run after a leading k; the key may be EMPTY.
+fn ex_k_group_star(l: &str) -> Option<Span> {
+    let b = l.as_bytes();
+    if b.first() != Some(&b'k') {
+        return None;
+    }
+    let mut j = 1;
+    while j < b.len() && b[j].is_ascii_lowercase() {
+        j += 1;
+    }
+    Some((1, j))
+}
+
+/// `^[a-z]*` — leading lowercase run (whole match); matches every line, possibly with an EMPTY key.
+fn ex_lower_prefix(l: &str) -> Option<Span> {
+    let b = l.as_bytes();
+    let mut j = 0;
+    while j < b.len() && b[j].is_ascii_lowercase() {
+        j += 1;
+    }
+    Some((0, j))
+}
+
 pub const KEY_PATS: &[KeyPat] = &[
     KeyPat { re: "id:(?P<value>[0-9]+)", extract: ex_id_group, has_value_group: true },
     KeyPat { re: "id:[0-9]+", extract: ex_id_whole, has_value_group: false },
     KeyPat { re: "^k(?P<value>[a-z]+)", extract: ex_k_group, has_value_group: true },
     KeyPat { re: "[0-9]+$", extract: ex_trailing_digits, has_value_group: false },
     KeyPat { re: r"=\s*(?P<value>-?[0-9]+)", extract: ex_eq_int, has_value_group: true },
+    KeyPat { re: "^k(?P<value>[a-z]*)", extract: ex_k_group_star, has_value_group: true },
+    KeyPat { re: "^[a-z]*", extract: ex_lower_prefix, has_value_group: false },
 ];
 
 pub fn key_pat(re: &str) -> Option<&'static KeyPat> {
